@@ -23,7 +23,7 @@ REQUIRED = ['familyA_compared', 'familyB_compared', 'familyB_discrete_compared',
 
 
 def gen_cases(tier, seed):
-    n = {'quick': 1200, 'thorough': 60000}[tier]
+    n = {'quick': 3000, 'thorough': 60000}[tier]
     out = []
     fams = ['A', 'A', 'B', 'Bd', 'C_SIR', 'C_SIS', 'D_SIR', 'D_SIS']
     for k in range(n):
